@@ -123,6 +123,11 @@ def work(chunk):
             forms = [cs / 100.0]
             if cs % 100 == 0:
                 forms.append(cs // 100)
+            # the same decimal mark as it comes out of ordinary float arithmetic (not the nearest double): n x 0.01, minutes x 60 + seconds
+            for alt in (cs * 0.01, (cs // 6000) * 60 + (cs % 6000) / 100.0):
+                if alt not in forms:
+                    forms.append(alt)
+                    acc.add('marks_from_float_arithmetic')
             if F is None:
                 # no WMA factor for this event: outside the stated domain; only the exception type is looked at
                 try:
